@@ -7,6 +7,7 @@
 //
 //	["op", inst, name, key]      one single-key operation of the instance's public API
 //	["del", inst, [key...]]      Del(keys...) (any number of keys, also 0 and 1)
+//	["delx", inst, [key...]]     DelCtx(ctx, keys...) with ctx already cancelled
 //	["fault", server, 0|1]       every keyed command on that server fails / works again
 //	["tick"]                     one tick (1 s) of package cache's cleaner timing wheel (the executor
 //	                             owns the ticker: harness/overlay/cache/zz_verif_c15.go), then quiescence
@@ -17,6 +18,7 @@
 package main
 
 import (
+	"context"
 	"errors"
 	"fmt"
 	"os"
@@ -369,6 +371,19 @@ func runScript(c Case) (out Out) {
 				err = caches[i].Del(ks...)
 			} else {
 				_, err = stores[i].Del(ks...)
+			}
+		case "delx": // DelCtx with a context that is already cancelled: no node can execute its DEL
+			i := num(op[1])
+			var ks []string
+			for _, x := range op[2].([]any) {
+				ks = append(ks, c.SKeys[num(x)].K)
+			}
+			ctx, cancel := context.WithCancel(context.Background())
+			cancel()
+			if caches[i] != nil {
+				err = caches[i].DelCtx(ctx, ks...)
+			} else {
+				_, err = stores[i].DelCtx(ctx, ks...)
 			}
 		case "fault":
 			mu.Lock()
